@@ -1035,8 +1035,9 @@ func intArr(n int) *node {
 
 type base struct {
 	fam  string
-	lvl  int // length of the enumerated sequence that produced it
-	over int // oversize-header variants: 0 never, 1 quick and thorough, 2 thorough only
+	lvl  int  // length of the enumerated sequence that produced it
+	over int  // oversize-header variants: 0 never, 1 quick and thorough, 2 thorough only
+	core bool // built from the reduced element alphabet only (quick mutates only these among the longer sequences)
 	body []byte
 }
 
@@ -1046,6 +1047,7 @@ type generator struct {
 	fam   map[string]int
 	arena []byte
 	tmp   []byte
+	core  bool // value of base.core for the bodies being added
 }
 
 func (g *generator) add(fam string, lvl int, n *node) {
@@ -1074,7 +1076,7 @@ func (g *generator) add(fam string, lvl int, n *node) {
 		}
 	}()
 	g.seen[string(b)] = struct{}{}
-	g.bases = append(g.bases, base{fam, lvl, 0, b})
+	g.bases = append(g.bases, base{fam, lvl, 0, g.core, b})
 	g.fam[fam]++
 }
 
@@ -1092,11 +1094,22 @@ func generate(quick bool) *generator {
 	m := func() *node { return fixstr("c") }
 
 	// F1: value-column arrays
+	isReduced := map[string]bool{}
+	for _, e := range reduced {
+		isReduced[e.name] = true
+	}
 	f1 := func(arr []named) {
 		if len(arr) == 0 {
 			return
 		}
 		n := len(arr)
+		g.core = true
+		for _, e := range arr {
+			if !isReduced[e.name] {
+				g.core = false
+			}
+		}
+		defer func() { g.core = false }()
 		g.add("F1:value-array", n, M(key("m"), m(), key("columns"), M(key("time"), timeArr(n), key("v"), A(nodes(arr)...))))
 		g.add("F1:value-array-no-time", n, M(key("m"), m(), key("columns"), M(key("v"), A(nodes(arr)...))))
 	}
@@ -2193,7 +2206,7 @@ func mutEligible(b base, quick bool) bool {
 	if quick {
 		switch {
 		case b.fam == "F1:value-array":
-			return b.lvl <= 2
+			return b.lvl <= 1 || (b.lvl == 2 && b.core)
 		case strings.HasPrefix(b.fam, "F1:"):
 			return b.lvl <= 1
 		case b.fam == "F2:time-array":
